@@ -356,6 +356,15 @@ pub fn seed_packets() -> Vec<(String, u8, Vec<u8>)> {
     // GnuPG packets
     v.push(("skesk v5".into(), 3, crate::reference::crypto::hexd("05070203089f0b7da3e5ea64779099e326e5400a90936cefb4e8eba08c6773716d1f2714540a38fcac529949dac529d3de31e15b4aeb729e330033dbed")));
     v.push(("gnupg aead".into(), 20, crate::reference::crypto::hexd("010702 0e5ed2bc1e470abe8f1d644c7a6c8a567b0f7701196611a154ba9c2574cd056284a8ef68035c623d93cc708a43211bb6eaf2b27f7c18d571bcd83b20add3a08b73af15b9a098")));
+    // key packets for ECDSA / ECDH on every named curve (assembled by the harness; the fixtures
+    // and the generator cover a few curves only)
+    for (desc, framed) in crate::props::c13::synthetic_curve_keys() {
+        if let Ok(ps) = codec::split_packets(&framed) {
+            if let Some((tag, _, body)) = ps.into_iter().next() {
+                v.push((desc, tag, body));
+            }
+        }
+    }
     v
 }
 
